@@ -43,7 +43,7 @@ pub fn read<'a>(fmt: Format, read: impl io::BufRead + 'a, s: &'a str, slurp: boo
         Format::Raw0 => collect_if(slurp, read.byte_records(0).map(|r| r.map(Val::utf8_str))),
         Format::Cbor => collect_if(slurp, cbor::read_many(read)),
         Format::Json => collect_if(slurp, json::read_many(read)),
-        Format::Toml => box_once(toml::parse(s).map_err(invalid_data)),
+        Format::Toml => collect_if(slurp, box_once(toml::parse(s).map_err(invalid_data))),
         Format::Xml => collect_if(slurp, xml::parse_many(s).map(map_invalid_data)),
         Format::Yaml => collect_if(slurp, yaml::parse_many(s).map(map_invalid_data)),
         Format::Csv => collect_if(slurp, tabular::read_csv(read.bytes()).map(map_invalid_data)),
@@ -60,6 +60,7 @@ pub fn parse<'a>(fmt: Format, bytes: &'a Bytes, s: &'a str, slurp: bool) -> Vals
     match fmt {
         Format::Raw if slurp => box_once(Ok(Val::utf8_str(bytes.clone()))),
         Format::Raw => Box::new(bytes.lines().map(slice_to_str)),
+        Format::Raw0 if bytes.is_empty() => collect_if(slurp, core::iter::empty()),
         Format::Raw0 => collect_if(slurp, nul_sep(bytes).map(slice_to_str)),
         Format::Json => collect_if(slurp, json::parse_many(bytes).map(map_invalid_data)),
         Format::Cbor => collect_if(slurp, cbor::parse_many(bytes).map(map_invalid_data)),
